@@ -133,6 +133,48 @@ def forchain(conds, vals, t, mode="next", elseval=None, tmpl=None):
     return {"k": "forchain", "conds": conds, "vals": vals, "t": t if isinstance(t, dict) else target(t), "mode": mode, "tmpl": tmpl,
             "bes": [_subst(tmpl, "v_", v) for v in vals],
             "haselse": 0 if elseval is None else 1, "elseval": elseval if elseval is not None else {"k": "int", "v": 0}}
+def func(name, params, body, is_async=False):
+    """a function (async: a sub-coroutine) defined in architecture(); parameters are bound to the argument OBJECTS"""
+    return {"name": name, "params": params, "body": body, "async": 1 if is_async else 0}
+def ret_(e=None): return {"k": "return", "has": 0 if e is None else 1, "e": e if e is not None else {"k": "int", "v": 0}}
+def _rename(x, m):
+    """apply a renaming of object / intermediate names to statements and expressions"""
+    if isinstance(x, dict):
+        if x.get("k") == "ref" and x.get("n") in m:
+            return m[x["n"]] if isinstance(m[x["n"]], dict) else dict(x, n=m[x["n"]])
+        y = {k: _rename(v, m) for k, v in x.items()}
+        if "obj" in x and "path" in x and x["obj"] in m:          # an assignment target
+            assert m[x["obj"]]["k"] == "ref", "only an object can be assigned through a parameter"
+            y["obj"] = m[x["obj"]]["n"]
+        if x.get("k") == "bind" and x["n"] in m:
+            y["n"] = m[x["n"]]["n"]
+        if x.get("k") == "ucall" and x.get("ret") in m:
+            y["ret"] = m[x["ret"]]["n"]
+        return y
+    if isinstance(x, list):
+        return [_rename(v, m) for v in x]
+    return x
+def _bound_names(ss, acc):
+    for s in ss:
+        if s["k"] == "bind":
+            acc.add(s["n"])
+        elif s["k"] == "ucall" and s["ret"]:
+            acc.add(s["ret"])
+        for k in ("th", "el", "body", "default"):
+            if isinstance(s.get(k), list):
+                _bound_names(s[k], acc)
+        for c in s.get("cases", []):
+            _bound_names(c["body"], acc)
+    return acc
+_SITE = [0]
+def ucall(f, args, ret=None):
+    """[ret =] [await] f(args).  `body` is the callee's body with the parameters replaced by the arguments and its own
+    intermediates given names unique to this call (what the specification executes); the printer emits the call."""
+    _SITE[0] += 1
+    m = {p: a for p, a in zip(f["params"], args)}
+    for n in _bound_names(f["body"], set()):
+        m[n] = ref(f"{n}_c{_SITE[0]}")
+    return {"k": "ucall", "f": f["name"], "args": args, "ret": ret or "", "aw": f["async"], "body": _rename(f["body"], m)}
 def local(n, ty, init, delayed=False): return {"k": "local", "n": n, "ty": ty, "init": init, "delayed": 1 if delayed else 0}
 def waitfor(n, allow_zero=False, via="std"):
     return {"k": "waitfor", "n": n if isinstance(n, dict) else {"k": "int", "v": n}, "allow_zero": 1 if allow_zero else 0, "via": via}
@@ -292,6 +334,11 @@ class Printer:
             elif k == "while":
                 out.append(f"{pad}while {self.cond(s['c'])}:")
                 self.stmts(s["body"], ind + 1, out)
+            elif k == "ucall":
+                call_ = f"{'await ' if s['aw'] else ''}{s['f']}({', '.join(self.expr(a) for a in s['args'])})"
+                out.append(f"{pad}{s['ret']} = {call_}" if s["ret"] else pad + call_)
+            elif k == "return":
+                out.append(f"{pad}return {self.expr(s['e'])}" if s["has"] else pad + "return")
             elif k == "break":
                 out.append(pad + "break")
             elif k == "continue":
@@ -324,6 +371,13 @@ class Printer:
             out.append(f"        {o['n']} = {q}[{ty_py(o['ty'])}]({', '.join(args)})")
         if "waiter" in json.dumps(ent["ctxs"]):
             out.append(f"        waiter = std.Waiter({ent.get('waiter_max', 7)})")
+        for f in ent.get("funcs", []):
+            out.append("")
+            out.append(f"        {'async ' if f['async'] else ''}def {f['name']}({', '.join(f['params'])}):")
+            nl = sorted(self.augmented(f["body"]) - set(f["params"]))
+            if nl:
+                out.append("            nonlocal " + ", ".join(nl))
+            self.stmts(f["body"], 3, out)
         for c in ent["ctxs"]:
             out.append("")
             if c["kind"] == "seq":
